@@ -53,7 +53,7 @@ def subset_case(draw, n_inputs=4):
             r = draw(st.integers(0, 99))
             if depth <= 0 or r < 30:
                 if ty == INT and r % 3 == 0:
-                    v = draw(st.one_of(st.integers(0, 9), st.sampled_from([64, 127, 128, 8192, 65536, 100000])))
+                    v = draw(st.one_of(st.integers(0, 9), st.sampled_from([64, 127, 128, 8192, 65536, 100000, 2147483647])))
                     return M.Lit(v, INT, str(v))
                 return M.Var(draw(st.sampled_from(names[ty])), ty)
             op = draw(st.sampled_from(["+", "-", "*", "+", "-", "*", "/"]))
@@ -84,7 +84,8 @@ def subset_case(draw, n_inputs=4):
 def nearmiss_case(draw, n_inputs=3):
     """one construct outside the subset added to an in-subset function"""
     kind = draw(st.sampled_from(["local", "assign-param", "branch", "loop", "call", "mixed-cast", "mod", "le", "ge", "ne",
-                                 "and", "or", "void", "float-const", "global", "affix", "two-returns", "unused-param-types"]))
+                                 "and", "or", "void", "float-const", "global", "affix", "two-returns", "unused-param-types",
+                                 "return-int-as-float", "return-float-as-int", "huge-constant", "huge-constant-uint"]))
     a, b = M.Var("a", INT), M.Var("b", INT)
     x = M.Var("x", FLOAT)
     params = [(INT, "a"), (INT, "b"), (FLOAT, "x")]
@@ -118,6 +119,18 @@ def nearmiss_case(draw, n_inputs=3):
     elif kind == "float-const":
         ret = FLOAT
         body = [M.Return(M.Bin("*", x, M.Lit(2.5, FLOAT, "2.5"), ty=FLOAT))]
+    elif kind == "return-int-as-float":
+        ret = FLOAT
+        body = [M.Return(M.Bin("+", a, b, ty=INT))]
+    elif kind == "return-float-as-int":
+        body = [M.Return(M.Bin("*", x, x, ty=FLOAT))]
+    elif kind in ("huge-constant", "huge-constant-uint"):
+        v = draw(st.sampled_from([2147483648, 4294967295, 4294967296, 1 << 40]))
+        if kind == "huge-constant-uint":
+            params = [(UINT, "a"), (UINT, "b"), (FLOAT, "x")]
+            a = M.Var("a", UINT)
+            ret = UINT
+        body = [M.Return(M.Bin("+", a, M.Lit(v, INT, str(v)), ty=ret))]
     elif kind == "global":
         globs = [(INT, "g")]
         body = [M.Return(M.Bin("+", a, M.Var("g", INT), ty=INT))]
@@ -129,6 +142,6 @@ def nearmiss_case(draw, n_inputs=3):
         body = [M.Return(M.Bin("-", a, b, ty=INT))]
     f = M.Func("w0", params, ret, M.Block(body), True)
     funcs.append(f)
-    inputs = {"w0": [({"a": _val(draw, INT), "b": _val(draw, INT), "x": _val(draw, FLOAT)},
+    inputs = {"w0": [({"a": _val(draw, params[0][0]), "b": _val(draw, params[1][0]), "x": _val(draw, FLOAT)},
                       {n: _val(draw, t) for t, n in globs}) for _ in range(n_inputs)]}
     return WasmCase(M.Program([], globs, funcs), ["w0"], inputs, "near-miss:" + kind)
